@@ -330,7 +330,7 @@ def has_mods(a):
 
 # ------------------------------------------------------------------------------------------------ independent formula reader
 
-_FTOK = re.compile(r'\[(\d*[A-Za-z]+)(-?\d+)\]|([A-Z][a-z]?)(-?\d*)')
+_FTOK = re.compile(r'\[(\d*[A-Z][a-z]?)(-?\d*)\]|([A-Z][a-z]?)(-?\d*)')
 
 
 def formula_mass_ref(value, elem_mass):
@@ -347,7 +347,7 @@ def formula_mass_ref(value, elem_mass):
             return None
         pos = m.end()
         if m.group(1) is not None:
-            sym, n = m.group(1), int(m.group(2))
+            sym, n = m.group(1), int(m.group(2)) if m.group(2) not in ('', '-') else 1
         else:
             sym, n = m.group(3), int(m.group(4)) if m.group(4) not in ('', '-') else 1
         if sym not in elem_mass:
